@@ -20,6 +20,7 @@ from geneticengine.algorithms.gp.structure import GeneticStep
 from geneticengine.algorithms.gp.operators.combinators import ParallelStep, SequenceStep
 from geneticengine.algorithms.gp.operators.crossover import GenericCrossoverStep
 from geneticengine.algorithms.gp.operators.elitism import ElitismStep
+from geneticengine.algorithms.gp.operators.evaluation import EvaluateStep
 from geneticengine.algorithms.gp.operators.mutation import GenericMutationStep
 from geneticengine.algorithms.gp.operators.novelty import NoveltyStep
 from geneticengine.algorithms.gp.operators.selection import TournamentSelection
@@ -469,8 +470,10 @@ def check_gp_in_step_evaluation(h: Harness):
     offspring (counted against the budget) that may never be handed to the tracker: open finding, re-confirmed here."""
     rng = h.rng
     site = "GeneticProgramming.search"
-    for trial in range(h.n(40, 300)):
+    for trial in range(h.n(60, 300)):
         keys = [rng.randint(0, 9) for _ in range(60)]
+        if trial % 3 == 0:
+            keys = list(range(60))          # an improving landscape: whatever is created last is best
         log, rec = MemLog(), Recording()
         problem = SingleObjectiveProblem(logging_ff(log, 0, lambda k: k))
         tracker = SingleObjectiveProgressTracker(problem, SequentialEvaluator(), recorders=[rec])
@@ -478,7 +481,10 @@ def check_gp_in_step_evaluation(h: Harness):
         handed = track_handed(tracker)
         stepname, step = rng.choice([("SequenceStep(GenericMutationStep(1), TournamentSelection(2))", lambda: SequenceStep(GenericMutationStep(1), TournamentSelection(2))),
                                      ("SequenceStep(TournamentSelection(2), GenericMutationStep(1), ElitismStep())",
-                                      lambda: SequenceStep(TournamentSelection(2), GenericMutationStep(1), ElitismStep()))])
+                                      lambda: SequenceStep(TournamentSelection(2), GenericMutationStep(1), ElitismStep())),
+                                     # (EvaluateStep evaluates the whole slice and yields it in the order it came: the best need not be first)
+                                     ("SequenceStep(TournamentSelection(2), GenericMutationStep(1), EvaluateStep())",
+                                      lambda: SequenceStep(TournamentSelection(2), GenericMutationStep(1), EvaluateStep()))])
         tap = TapStep(step())
         gp = GeneticProgramming(problem, EvaluationBudget(n), ScriptRep(keys), NativeRandomSource(rng.randrange(10**6)), tracker,
                                 population_size=pop, step=tap)
@@ -487,7 +493,7 @@ def check_gp_in_step_evaluation(h: Harness):
         except Exception as e:  # noqa: BLE001
             h.notes.append(f"C12 GP mutation;tournament run raised {type(e).__name__}: {e}")
             continue
-        h.count("search:GP:in-step:" + ("elitism-last" if "Elitism" in stepname else "mutation;tournament"))
+        h.count("search:GP:in-step:" + ("elitism-last" if "Elitism" in stepname else ("evaluate-last" if "EvaluateStep" in stepname else "mutation;tournament")))
         rv = as_int(ret.get_fitness(problem).maximizing_aggregate)
         registered = {r["uid"] for r in rec.rows}
         evaluated = [(u, keys[u % len(keys)]) for (_, u) in log.read()]
@@ -504,7 +510,10 @@ def check_gp_in_step_evaluation(h: Harness):
             elif members:
                 u, v = members[0]
             h.fail(site, "individual-handed-to-the-tracker-better-than-returned" if tracked else
-                   ("generation-member-better-than-returned-never-reached-the-tracker" if members else "evaluated-individual-better-than-returned"),
+                   ("generation-member-better-than-returned-never-reached-the-tracker" if members else
+                    # (the open finding is about a step that varies first and SELECTS afterwards: what it drops was evaluated; a composition whose
+                    # last step evaluates exactly what it yields loses nothing -- a different failure)
+                    ("evaluated-individual-better-than-returned" if not ("Elitism" in stepname or "EvaluateStep" in stepname) else "evaluated-by-the-last-step-never-reported")),
                    f"GeneticProgramming(EvaluationBudget({n}), population_size={pop}, step={stepname}): "
                    f"individual uid {u} was evaluated (counted) with fitness {v} but search() returned uid {uid(ret)} with fitness {rv}; "
                    f"uid {u} {'was' if u in handed else 'was never'} handed to the tracker ({len(evaluated)} evaluated, {len(handed)} handed to the tracker, "
